@@ -126,7 +126,13 @@ impl Future for StatusFuture {
       #[cfg(feature = "verif_hooks")]
       crate::verif_hooks::yield_now(crate::verif_hooks::YIELD_STATUS_POLL, 0);
       self.0.waker.register(cx.waker());
-      Poll::Pending
+      // the observable may have terminated between the check above and the
+      // registration, in which case its wake-up found no waker: look again.
+      if self.0.is_closed() {
+        Poll::Ready(NormalReturn::new(()))
+      } else {
+        Poll::Pending
+      }
     }
   }
 }
